@@ -188,7 +188,8 @@ def g_perm(draw):
             c["sessions"] = [gen.fractional_stats(draw, p["C"], p["F"], p["means"], p["variances"],
                                                   n_frames=gen.integer(draw, 1, 8), r=r) for _ in range(n)]
         c.update(y=y, em=gen.integer(draw, 1, 2), perm=gen.permutation(draw, n), relabel=gen.permutation(draw, K),
-                 npart=gen.integer(draw, 1, n))
+                 npart=gen.integer(draw, 1, n), dask=(kind == "fa_array" and gen.boolean(draw)),
+                 chunks=gen.composition(draw, n, max_parts=3))
     return c
 
 
@@ -220,7 +221,12 @@ def fit_perm(c, order, relabel):
         return {"weights": np.asarray(WCCN().fit(c["X"][order], y).weights, float)}
     m = sut.make_fa(c, em_iterations=int(c["em"]))
     if kind == "fa_array":
-        m.fit_using_array(c["X"][order], y)
+        Xo = c["X"][order]
+        if c.get("dask"):
+            import dask.array as da
+
+            Xo = da.from_array(Xo, chunks=(tuple(c["chunks"]),) + tuple((s_,) for s_ in Xo.shape[1:]))
+        m.fit_using_array(Xo, y)
     else:
         stats = [sut.make_stats(c["sessions"][i]) for i in order]
         data = db.from_sequence(stats, npartitions=int(c["npart"])) if kind == "jfa_bag" else stats
